@@ -396,7 +396,8 @@ async def run_session(ctx, idx) -> None:
         for k in range(ctx.pick(12, 80)):
             n = rng.choice([1, 1, 2, 3, 5, 10, 27, 40])
             ids = [rng.choice(all_ids) if rng.random() < 0.8 else (rng.randint(1, 3), rng.randint(14, 4000)) for _ in range(n)]
-            arg = ids if rng.random() < 0.5 else set(ids)
+            # the parameter is an Iterable: lists, sets, tuples - and one-shot iterables (a generator, zip, iter(list))
+            arg = rng.choice([lambda: ids, lambda: set(ids), lambda: tuple(ids), lambda: iter(list(ids)), lambda: (x for x in list(ids)), lambda: zip([a for a, _ in ids], [i for _, i in ids])])()
             await s.call(f"get_characteristics({n})", p.get_characteristics(arg), expect_read(ids))
         # the way a poller uses the API: ONE set object, mutated in place between reads - each request lists what the set
         # holds at the time of the call
@@ -416,7 +417,8 @@ async def run_session(ctx, idx) -> None:
                 i = rng.choice([9, 10, 11, 12])
                 writes.append((a, i, gen_value(rng)))
             want = {"characteristics": [{"aid": a, "iid": i, "value": v} for a, i, v in writes]}
-            await s.call(f"put_characteristics({n})", p.put_characteristics(writes), expect_one("PUT", "/characteristics", None, JSON_CT, json_obj=want, char_payload=True))
+            warg = rng.choice([lambda: writes, lambda: tuple(writes), lambda: iter(list(writes)), lambda: (w_ for w_ in list(writes))])()
+            await s.call(f"put_characteristics({n})", p.put_characteristics(warg), expect_one("PUT", "/characteristics", None, JSON_CT, json_obj=want, char_payload=True))
         # a write that names an accessory the local database does not have (a bridge gained one, the copy is older): what goes
         # out is the request the caller asked for - every entry, in order - or nothing at all (the call fails); never a
         # request with entries silently left out
